@@ -912,6 +912,20 @@ impl Interpreter {
         source: &str,
         module_path: Option<crate::ModulePath>,
     ) -> Result<StepResult, JsError> {
+        // A new run replaces whatever an earlier run left behind
+        self.discard_run_state();
+        let result = self.eval_inner(source, module_path);
+        if result.is_err() {
+            self.discard_run_state();
+        }
+        result
+    }
+
+    fn eval_inner(
+        &mut self,
+        source: &str,
+        module_path: Option<crate::ModulePath>,
+    ) -> Result<StepResult, JsError> {
         use crate::compiler::Compiler;
         use bytecode_vm::BytecodeVM;
 
@@ -1148,6 +1162,37 @@ impl Interpreter {
     /// Call `prepare()` to set up execution before using `step()`.
     #[inline]
     pub fn step(&mut self) -> Result<StepResult, JsError> {
+        let result = self.step_inner();
+        if result.is_err() {
+            // The run ended with an uncaught error: nothing of it may survive into a later run
+            self.discard_run_state();
+        }
+        result
+    }
+
+    /// Forget every piece of per-run execution state: the active VM, the scopes, call-stack
+    /// entries and environment guards of the run, module/order/await bookkeeping. Used when a
+    /// run died with an uncaught error and when a new run replaces one the host stopped stepping.
+    fn discard_run_state(&mut self) {
+        self.active_vm = None;
+        self.active_module_path = None;
+        self.active_saved_env = None;
+        self.active_module_env = None;
+        self.env = self.global_env.cheap_clone();
+        self.env_guards.clear();
+        self.call_stack.clear();
+        self.exports.clear();
+        self.pending_program = None;
+        self.pending_module_sources.clear();
+        self.pending_orders.clear();
+        self.cancelled_orders.clear();
+        self.order_responses.clear();
+        self.suspended_for_order = None;
+        self.wait_graph = WaitGraph::new();
+    }
+
+    #[inline]
+    fn step_inner(&mut self) -> Result<StepResult, JsError> {
         use bytecode_vm::{BytecodeVM, VmStepResult};
 
         // If there's no active VM, try to set one up from various sources
@@ -1395,6 +1440,21 @@ impl Interpreter {
     /// Returns `Ok(())` if setup succeeded, or an error if parsing/compilation failed
     /// or if imports are needed.
     pub fn prepare(
+        &mut self,
+        source: &str,
+        module_path: Option<crate::ModulePath>,
+    ) -> Result<StepResult, JsError> {
+        // A new run replaces whatever an earlier run left behind (it failed, or the host
+        // stopped stepping it)
+        self.discard_run_state();
+        let result = self.prepare_inner(source, module_path);
+        if result.is_err() {
+            self.discard_run_state();
+        }
+        result
+    }
+
+    fn prepare_inner(
         &mut self,
         source: &str,
         module_path: Option<crate::ModulePath>,
